@@ -117,8 +117,12 @@ def run_case(idx, rng, tier, res):
     opts = {'genTexts': gt}
     if identity:
         opts['textFilter'] = lambda symbol, text: text
-    c = compiled.Compiled(g, texts, load_texts=True, **opts)
-    replay = {'texts': texts, 'genTexts': gt, 'identity_filter': identity}
+    # a quarter of the sets travel through a real directory and the FileReader (line ends and all)
+    via_files = rng.random() < 0.25
+    if via_files:
+        res.count('sets_read_through_the_file_reader')
+    c = compiled.Compiled(g, texts, load_texts=True, via_files=via_files, **opts)
+    replay = {'texts': texts, 'genTexts': gt, 'identity_filter': identity, 'via_files': via_files}
     for b, n, st, err in c.status_problems():
         res.violation('not_compiled', '%s: %s is %s (%s)' % (b, n, st, err), replay=replay, backend=b)
     sig = []
